@@ -340,4 +340,85 @@ def c04_model_conformance(seed=0):
     return {"ok": True, "cases": cases, "violates": False}
 
 
-CALLS = {"c04_large_values": c04_large_values, "c04_roundtrip": c04_roundtrip, "c04_cut": c04_cut, "c04_unknown_identifier": c04_unknown_identifier, "c04_fail": c04_fail, "c04_sweep": c04_sweep, "c04_model_conformance": c04_model_conformance}
+
+def c04_gz_flushpoint(records=1):
+    """a gzip stream written with a flush after every record, cut at the flush point behind the last record (no end-of-stream marker)"""
+    import gzip
+
+    from flow.record import RecordDescriptor
+    from flow.record.stream import RecordStreamReader, RecordStreamWriter
+
+    D = RecordDescriptor("c04/gz", [("varint", "n"), ("string", "s")])
+    raw = io.BytesIO()
+    gz = gzip.GzipFile(fileobj=raw, mode="wb")
+    w = RecordStreamWriter(gz)
+    w.flush()  # header
+    gz.flush()
+    for i in range(records):
+        w.write(D(n=i, s="v" * 50))
+        w.flush()
+        gz.flush()
+    data = raw.getvalue()  # what is on disk when the process dies here: no trailer
+    w.fp = None
+    out, end = [], "stop"
+    try:
+        for r in RecordStreamReader(gzip.GzipFile(fileobj=io.BytesIO(data), mode="rb")):
+            out.append(r.n)
+    except Exception as e:
+        end = f"raise {type(e).__name__}: {e}"
+    bad = out != list(range(records)) or end != "stop"
+    return {"violates": bad, "detail": f"{records} flushed record(s), file without gzip trailer: read {out}, ended {end}"}
+
+
+def c04_extra_bytes(extra="05"):
+    import struct
+
+    from flow.record.packer import RecordPacker
+
+    D = _descs()
+    p = RecordPacker()
+    desc = p.pack(D[0])
+    body = p.pack(D[0](n=5, s="v")) + bytes.fromhex(extra)
+    hdr = b"\x00\x00\x00\x0f\xc4\x0dRECORDSTREAM\n"
+    data = hdr + struct.pack(">I", len(desc)) + desc + struct.pack(">I", len(body)) + body
+    out, end = _read_all(io.BytesIO(data))
+    return {"violates": bool(out), "yielded": repr(out)[:200], "end": end}
+
+
+class _ShortOnce(io.RawIOBase):
+    def __init__(self, at, keep):
+        self.data, self.calls, self.at, self.keep = bytearray(), 0, at, keep
+
+    def writable(self):
+        return True
+
+    def write(self, b):
+        b = bytes(b)
+        if self.calls == self.at:
+            b = b[: self.keep]
+        self.calls += 1
+        self.data += b
+        return len(b)
+
+
+def c04_short_prefix(keep=1, records=1):
+    from flow.record import Record
+    from flow.record.stream import RecordStreamReader, RecordStreamWriter
+
+    D = _descs()
+    recs = [D[0](n=5 + i, s="v") for i in range(records)]
+    fp = _ShortOnce(at=4 + 2 * (records - 1), keep=keep)  # write calls: 0,1 header  2,3 descriptor  4,5 record 0 ...
+    w = RecordStreamWriter(fp)
+    for r in recs:
+        w.write(r)
+    w.fp = None
+    out, end = [], "stop"
+    try:
+        for o in RecordStreamReader(io.BytesIO(bytes(fp.data))):
+            out.append(o.n if isinstance(o, Record) else repr(o)[:80])
+    except Exception as e:
+        end = f"raise {type(e).__name__}"
+    want = [5 + i for i in range(records - 1)]
+    return {"violates": out != want, "detail": f"{keep} of 4 length bytes of the last of {records} frame(s) written: read back {out!r}, ended {end}; completely written: {want!r}"}
+
+CALLS = {"c04_extra_bytes": c04_extra_bytes, "c04_short_prefix": c04_short_prefix, "c04_gz_flushpoint": c04_gz_flushpoint, "c04_large_values": c04_large_values, "c04_roundtrip": c04_roundtrip, "c04_cut": c04_cut, "c04_unknown_identifier": c04_unknown_identifier, "c04_fail": c04_fail, "c04_sweep": c04_sweep, "c04_model_conformance": c04_model_conformance}
